@@ -23,7 +23,7 @@ Record cfg := mkCfg { rx_range_anchored : bool;        (* _rx_range ends with " 
    (the harness only feeds it canonical-shaped date texts); time.mktime is then never reached *)
 Definition no_local (f : fields) : res Z := Raise ValueError.
 Definition cdate (g : cfg) : conv := conv_date (now_utc g) parse_imf no_local.
-Definition cdate_delta (g : cfg) : conv := conv_date_delta (now_local g) (now_utc g) parse_imf no_local.
+Definition cdate_delta (g : cfg) : conv := conv_date_delta (now_utc g) parse_imf no_local.
 
 (* ---------------- Response ---------------- *)
 Inductive rattr :=
